@@ -41,50 +41,47 @@ def route_sx(kind, prefix, a):
 
 
 class Spec:
-    """What the RIBs and every peer must hold, as a function of the history."""
+    """What the RIBs and every peer must hold, as a function of the history (written from the property texts)."""
 
     def __init__(self, peers):
-        self.peers = {p.name: p for p in peers}
+        self.peers = {}
+        for p in peers:
+            q = Peer(p.name, p.addr, p.asn, p.kind)
+            self.peers[q.name] = q
         self.local = {}          # prefix -> attrs (API-injected)
 
-    # ---- events ----
-    def up(self, name):
-        self.peers[name].up = True
-
-    def down(self, name):
-        p = self.peers[name]
-        p.up = False
-        p.adjin = {}
-
-    def delete(self, name):
-        self.peers.pop(name, None)
-
-    def announce(self, name, prefix, a):
-        p = self.peers[name]
-        if not p.up:
-            return
-        a = dict(a)
-        a["nh"] = p.addr
-        rejected = LOCAL_AS in a["aspath"]
-        p.adjin[prefix] = (a, rejected)
-
-    def withdraw(self, name, prefix):
-        p = self.peers[name]
-        if p.up:
-            p.adjin.pop(prefix, None)
-
-    def api_add(self, prefix, a):
-        a = dict(a)
-        a["nh"] = "0.0.0.0"
-        self.local[prefix] = a
-
-    def api_del(self, prefix):
-        self.local.pop(prefix, None)
+    def apply(self, e):
+        k = e[0]
+        if k == "up":
+            if e[1] in self.peers:
+                self.peers[e[1]].up = True
+        elif k == "close":
+            if e[1] in self.peers:
+                self.peers[e[1]].up = False
+                self.peers[e[1]].adjin = {}
+        elif k == "del":
+            self.peers.pop(e[1], None)
+        elif k == "ann":
+            p = self.peers.get(e[1])
+            if p is not None and p.up:
+                a = dict(e[3])
+                a["nh"] = p.addr
+                rejected = LOCAL_AS in a["aspath"] or (p.kind != "ebgp" and (a.get("orig") == ROUTER_ID or ROUTER_ID in (a.get("cl") or [])))
+                p.adjin[e[2]] = (a, rejected)
+        elif k == "wd":
+            p = self.peers.get(e[1])
+            if p is not None and p.up:
+                p.adjin.pop(e[2], None)
+        elif k == "apiadd":
+            a = dict(e[2])
+            a["nh"] = "0.0.0.0"
+            self.local[e[1]] = a
+        elif k == "apidel":
+            self.local.pop(e[1], None)
 
     # ---- expected contents ----
     def exp_adjin(self, name):
-        p = self.peers[name]
-        return sorted("%s#0 %s" % (pf, summary(a)) for pf, (a, rej) in p.adjin.items())
+        return {pf: summary(a) for pf, (a, rej) in self.peers[name].adjin.items()}
 
     def exp_counters(self, name):
         p = self.peers[name]
@@ -126,9 +123,8 @@ class Spec:
         s = self.source_of(src)
         if s is not None and s.name == to.name:
             return None                                       # never back to the router it came from
-        internal_src = s is not None and s.kind in ("ibgp", "rr")
-        if to.kind in ("ibgp", "rr"):
-            if internal_src and s.kind != "rr" and to.kind != "rr":
+        if to.kind in ("ibgp", "rr") and s is not None:
+            if s.kind == "ibgp" and to.kind == "ibgp":
                 return None                                   # non-client iBGP -> non-client iBGP
             if to.kind == "rr" and ROUTER_ID in (a.get("cl") or []):
                 return None
@@ -154,6 +150,36 @@ class Spec:
             else:
                 e["orig"], e["cl"] = None, None
         return summary(e)
+
+
+def parse_summary(s):
+    """'cl[1.1.1.1];lp100;nh10.0.0.1;o0;orig10.0.0.1;p[2:65001]' -> attribute dict"""
+    a = {"origin": None, "aspath": None, "nh": None, "med": None, "lp": None, "comms": [], "orig": None, "cl": [], "other": []}
+    for part in s.split(";"):
+        if part.startswith("orig"):
+            a["orig"] = part[4:]
+        elif part.startswith("o") and part[1:].isdigit():
+            a["origin"] = int(part[1:])
+        elif part.startswith("p["):
+            segs = part[2:-1]
+            a["aspath"] = []
+            a["segs"] = segs
+            for sg in [x for x in segs.split(",") if x]:
+                t, _, members = sg.partition(":")
+                a["aspath"] += [int(x) for x in members.split(".") if x]
+        elif part.startswith("nh"):
+            a["nh"] = part[2:]
+        elif part.startswith("med"):
+            a["med"] = int(part[3:])
+        elif part.startswith("lp"):
+            a["lp"] = int(part[2:])
+        elif part.startswith("c["):
+            a["comms"] = [int(x) for x in part[2:-1].split(",") if x]
+        elif part.startswith("cl["):
+            a["cl"] = [x for x in part[3:-1].split(",") if x]
+        elif part:
+            a["other"].append(part)
+    return a
 
 
 # ---------------------------------------------------------------- observation parsing
@@ -403,9 +429,11 @@ def canon_impl(sc, out):
 
 def split_output(out):
     """'SIM ok (obs ...) (obs ...) [markers]' -> (list of parsed obs, markers) or None"""
-    if not out.startswith("SIM ok"):
+    if out.startswith("SIM "):
+        out = out[4:]
+    if not out.startswith("ok"):
         return None
-    items = parse_sx(out[len("SIM ok"):])
+    items = parse_sx(out[2:])
     obs = [parse_obs(i) for i in items if i and i[0] == "obs"]
     markers = [i[0] for i in items if i and i[0] != "obs"]
     return obs, markers
